@@ -40,13 +40,19 @@ func (h *Histogram) Add(r *Result) {
 func (h *Histogram) MarshalJSON() ([]byte, error) {
 	var buf bytes.Buffer
 
+	counts := h.Counts
+	if len(counts) != len(h.Buckets) {
+		// No result was added yet.
+		counts = make([]uint64, len(h.Buckets))
+	}
+
 	// Custom marshalling to guarantee order.
 	buf.WriteString("{")
 	for i := range h.Buckets {
 		if i > 0 {
 			buf.WriteString(", ")
 		}
-		if _, err := fmt.Fprintf(&buf, "\"%d\": %d", h.Buckets[i], h.Counts[i]); err != nil {
+		if _, err := fmt.Fprintf(&buf, "\"%d\": %d", h.Buckets[i], counts[i]); err != nil {
 			return nil, err
 		}
 	}
